@@ -371,31 +371,32 @@ def updateState (cfg : Cfg) (b : Block) (s : State) : Except Err State := do
   if rootOf b.ver s' ≠ b.newRoot then throw .rootNew
   return s'
 
+/-- reverse-diff entry of one storage slot -/
+def revStorage (cfg : Cfg) (n : Nat) (s : State) (e : (Nat × Nat) × Nat) : Except Err ((Nat × Nat) × Nat) :=
+  if n = 0 then pure (e.1, 0)
+  else if cfg.legacy then
+    match valueAtOld s.hStorage e.1 (n - 1) with
+    | some v => pure (e.1, v)
+    | none =>
+      -- no log above n-1 (`ErrCheckHeadState`): since 05cf200 the head value is used
+      if cfg.zeroWriteFix then pure (e.1, (Map.get s.storage e.1).getD 0)
+      else throw Err.checkHeadState
+  else pure (e.1, (valueAtNew s.hStorage e.1 (n - 1)).getD 0)
+
+/-- reverse-diff entry of a nonce (`h = hNonce`) or of a replaced class (`h = hClass`) -/
+def revField (cfg : Cfg) (n : Nat) (h : Map (Nat × Nat) Nat) (e : Nat × Nat) : Except Err (Nat × Nat) :=
+  if n = 0 then pure (e.1, 0)
+  else if cfg.legacy then
+    match valueAtOld h e.1 (n - 1) with
+    | some v => pure (e.1, v)
+    | none => throw Err.checkHeadState
+  else pure (e.1, (valueAtNew h e.1 (n - 1)).getD 0)
+
 /-- `GetReverseStateDiff`: the values before block `n`, recovered from the history logs. -/
 def reverseDiff (cfg : Cfg) (n : Nat) (d : Diff) (s : State) : Except Err Diff := do
-  let stor ← d.storage.mapM (fun e : (Nat × Nat) × Nat =>
-    if n = 0 then pure (e.1, 0)
-    else if cfg.legacy then
-      match valueAtOld s.hStorage e.1 (n - 1) with
-      | some v => pure (e.1, v)
-      | none =>
-        if cfg.zeroWriteFix then pure (e.1, (Map.get s.storage e.1).getD 0)
-        else throw Err.checkHeadState
-    else pure (e.1, (valueAtNew s.hStorage e.1 (n - 1)).getD 0))
-  let nonces ← d.nonces.mapM (fun e : Nat × Nat =>
-    if n = 0 then pure (e.1, 0)
-    else if cfg.legacy then
-      match valueAtOld s.hNonce e.1 (n - 1) with
-      | some v => pure (e.1, v)
-      | none => throw Err.checkHeadState
-    else pure (e.1, (valueAtNew s.hNonce e.1 (n - 1)).getD 0))
-  let replaced ← d.replaced.mapM (fun e : Nat × Nat =>
-    if n = 0 then pure (e.1, 0)
-    else if cfg.legacy then
-      match valueAtOld s.hClass e.1 (n - 1) with
-      | some v => pure (e.1, v)
-      | none => throw Err.checkHeadState
-    else pure (e.1, (valueAtNew s.hClass e.1 (n - 1)).getD 0))
+  let stor ← d.storage.mapM (revStorage cfg n s)
+  let nonces ← d.nonces.mapM (revField cfg n s.hNonce)
+  let replaced ← d.replaced.mapM (revField cfg n s.hClass)
   return { Diff.empty with storage := stor, nonces := nonces, replaced := replaced }
 
 /-- `State.Revert` of either backend. `casm` is the CASM metadata bucket as it is on disk. -/
